@@ -82,7 +82,11 @@ Discrete ==
     \cup {Case("ints", F("primepi", a)) : a \in {TInt(n) : n \in -2..60} \cup {TRat(7, 2), TRat(29, 1), S2, pi, x}}
     \cup {Case("ints", F("primorial", a)) : a \in {TInt(n) : n \in 0..24} \cup {TRat(7, 2), pi}}
 
-Cases == Trig \cup InvTrig \cup Hyp \cup ExpLog \cup Rounding \cup GammaLike \cup MaxMin \cup Discrete
+\* integer shifts are pulled out of the rounding functions: at arguments that are negative, fractional, and change sign
+RoundShift == {Case("xrat", F(f, a)) : f \in {"floor", "ceiling", "truncate"},
+                  a \in {Add(x, TInt(1)), Add(x, TInt(-2)), Add(x, TInt(4)), Add(Mul(TInt(2), x), TInt(3)), Add(Add(x, y), TInt(1)), Add(x, TRat(1, 2)),
+                         Add(Neg(x), TInt(1)), Add(Mul(TRat(1, 2), x), TInt(-1))}}
+Cases == RoundShift \cup Trig \cup InvTrig \cup Hyp \cup ExpLog \cup Rounding \cup GammaLike \cup MaxMin \cup Discrete
 ASSUME PrintT(<<"cases", Cardinality(Trig), Cardinality(InvTrig), Cardinality(Hyp), Cardinality(ExpLog),
                 Cardinality(Rounding), Cardinality(GammaLike), Cardinality(MaxMin), Cardinality(Discrete)>>)
 ASSUME ndJsonSerialize(IOEnv.OUT, SetToSeq(Cases))
